@@ -38,8 +38,9 @@ def expand_history(cs):
                 steps.append(s)
             else:
                 bs = int(c["burn steps"])
-                steps.append([float(c["cycle length"]) * avail[i] / bs] * bs)
-        lengths = [sum(s) / a for s, a in zip(steps, avail)]
+                steps.append([float(c["cycle length"]) * avail[i] / bs] * bs if bs else [])
+        # a stated cycle length is the cycle length (also with no burn steps or zero availability)
+        lengths = [float(c["cycle length"]) if "cycle length" in c else sum(s) / a for c, s, a in zip(cyc, steps, avail)]
         pfs = []
         for i, c in enumerate(cyc):
             if "power fractions" in c:
